@@ -18,7 +18,8 @@ META = {
              "method), both methods, both conventions, non-default I / beta / kappa / Charnock / viscous constants and "
              "number_of_bins 5..20; (b) random spectra for the peak-method oracle incl. power != 4; (c) 2D spectra vs "
              "their 1D reduction. Non-trivial = direction not a multiple of 90 degrees; distinct = sha1 of the case."
-             " Half of the peak-method cases estimate the same object again after scaling it in place by 3."),
+             " Half of the peak-method cases estimate the same object again after scaling it in place by 3."
+             " Waves exactly along an axis (0/90/180/270 degrees) carry moments with exact zeros."),
     "assumptions": [
         "closed form u* = 8 pi^3 E_eq/(4 g I beta), z0 = alpha u*^2/g + c_visc nu/u*, U10 = u*/kappa ln(10/z0), compared at 1e-9 relative",
         "E_eq: peak method = max of E f^p with NaN as 0 at its first arg-max; tail spectra: E_eq = c for both methods",
